@@ -9,9 +9,9 @@ ThreshH == {1, 2, 479, 480, 481, 487, 488, 489, 575, 576, 577, 1080}
 MC_Sizes == {<<w, h>> : w \in ThreshW, h \in ThreshH}
 MC_SizesSmall == {<<2, 2>>, <<2, 480>>, <<2, 576>>, <<2, 577>>, <<1280, 2>>, <<1279, 488>>, <<3, 3>>}
 MC_Ss == {<<0, 0>>, <<1, 1>>}
-MC_McIn == McAll
-MC_TcIn == {2, 1, 13, 0}
-MC_CpIn == {2, 1, 5, 9, 10, 3}
+MC_McIn == {0, 1, 2, 3, 5, 9, 12}
+MC_TcIn == {2, 1, 0}
+MC_CpIn == {2, 1, 5, 10}
 MC_QuirksOff == [lin_to_yuv_raw_cfg |-> FALSE, rgb_to_yuv_panics_on_odd |-> FALSE]
 MC_QuirkF3   == [lin_to_yuv_raw_cfg |-> TRUE,  rgb_to_yuv_panics_on_odd |-> FALSE]
 MC_QuirkF4   == [lin_to_yuv_raw_cfg |-> FALSE, rgb_to_yuv_panics_on_odd |-> TRUE]
